@@ -26,6 +26,7 @@ type childIn struct {
 	Plugin string  `json:"plugin"`
 	Cases  []int   `json:"cases"`
 	Seeds  []int64 `json:"seeds"`
+	Mode   string  `json:"mode,omitempty"` // "" or modeTransport
 }
 
 // batchLog is set in children: one line per batch before it is handed to the
@@ -98,8 +99,8 @@ func childRun(raw json.RawMessage, io *core.ChildIO) (any, error) {
 	// every case's result goes to the on-disk log as soon as the case is done, so
 	// that a later crash of this child loses nothing
 	for i, no := range in.Cases {
-		cs := genCase(in.Seeds[i], in.Plugin, no)
-		io.Log(map[string]any{"plugin": in.Plugin, "case": no, "seed": in.Seeds[i], "cfg": cs.Cfg.tag()})
+		cs := genCase(in.Seeds[i], in.Plugin, no, in.Mode)
+		io.Log(map[string]any{"plugin": in.Plugin, "case": no, "seed": in.Seeds[i], "cfg": cs.Cfg.tag(), "mode": in.Mode})
 		dir := filepath.Join(io.Dir, fmt.Sprintf("case-%d", no))
 		_ = os.MkdirAll(dir, 0o755)
 		res := newCaseResult()
@@ -120,6 +121,7 @@ type job struct {
 	plugin string
 	cases  []int
 	seeds  []int64
+	mode   string
 }
 
 // crashInfo is what the child's log says about where it died.
@@ -174,7 +176,11 @@ func run(c *core.Ctx) {
 		"fed 3..8 successive batches of very different sizes (1..batch_size events, tiny to 20 kB / 80-level deep events, regular / child / child-parent kinds, " +
 		"hostile characters in keys, values and routing fields) under a scripted sink (accept, 5xx-then-accept, 413 above a byte limit); " +
 		"one evaluation = one batch judged; non-trivial fingerprint = plugin config class x batch shape (event count, parents, bytes, flush trigger, sink plan) x " +
-		"shape of the previous batch on the same worker (buffer reuse pattern) x hostile classes of the routing values")
+		"shape of the previous batch on the same worker (buffer reuse pattern) x hostile classes of the routing values; " +
+		"plus transport-failure cases of the four outputs built on xhttp.Client: elasticsearch/http with 2..5 endpoints of which some never accept " +
+		"(refusing port, reset/close after accept, hang-up after the request, always-5xx) and the rest are live sinks sharing one recorder; " +
+		"splunk/loki (single endpoint) and part of es/http with a live sink that cuts the connection for the first 1..11 requests of a batch; " +
+		"crossed with use_gzip on/off and five gzip levels; the same oracle over what the live sinks accepted (gzip bodies decoded to EOF, all members)")
 	c.Assume("the loopback HTTP/TCP sinks and the recording KafkaClient deliver the bytes the plugin handed to the transport; net/http and compress/gzip are trusted")
 	c.Assume("events are built with pipeline.VerifNewEvent + Root.DecodeBytes (the kinds a real split produces), not by a running pipeline")
 	c.Assume("Kafka framing is observed at the plugin's KafkaClient interface (bytes copied at ProduceSync time), not on the wire")
@@ -192,6 +198,22 @@ func run(c *core.Ctx) {
 			for k := from; k < from+chunk && k < perPlugin; k++ {
 				j.cases = append(j.cases, k)
 				j.seeds = append(j.seeds, c.SubSeed("case|"+p, k))
+			}
+			jobs = append(jobs, j)
+		}
+	}
+	// transport-failure cases of the outputs built on xhttp.Client (fleet.go):
+	// numbered after the ordinary cases, own seed stream
+	perTransport := c.N(200, 3000)
+	for _, p := range xhttpPlugins {
+		if only != "" && !strings.Contains(","+only+",", ","+p+",") {
+			continue
+		}
+		for from := 0; from < perTransport; from += chunk {
+			j := job{plugin: p, mode: modeTransport}
+			for k := from; k < from+chunk && k < perTransport; k++ {
+				j.cases = append(j.cases, perPlugin+k)
+				j.seeds = append(j.seeds, c.SubSeed("transport-case|"+p, perPlugin+k))
 			}
 			jobs = append(jobs, j)
 		}
@@ -214,8 +236,12 @@ func run(c *core.Ctx) {
 		}
 	}
 	noConfirm := os.Getenv("C19_NO_CONFIRM") == "1" // debugging aid
-	recurs := func(plugin string, no int, sig string) bool {
-		r := core.RunChild("run", childIn{Plugin: plugin, Cases: []int{no}, Seeds: []int64{c.SubSeed("case|"+plugin, no)}},
+	recurs := func(plugin, mode string, no int, sig string) bool {
+		stream := "case|"
+		if mode == modeTransport {
+			stream = "transport-case|"
+		}
+		r := core.RunChild("run", childIn{Plugin: plugin, Mode: mode, Cases: []int{no}, Seeds: []int64{c.SubSeed(stream+plugin, no)}},
 			core.ChildOpt{Timeout: 5 * time.Minute, Env: []string{"C19_TRACE="}})
 		_, done := crashWhere(r)
 		for _, out := range done {
@@ -272,8 +298,10 @@ func run(c *core.Ctx) {
 				mu.Lock()
 				known := seenSig[v.Signature] > 0
 				mu.Unlock()
-				if !known && !noConfirm && !recurs(j.plugin, no, v.Signature) {
+				if !known && !noConfirm && !recurs(j.plugin, j.mode, no, v.Signature) {
 					c.Count("violations_not_reproduced_on_rerun", 1)
+					wj, _ := json.Marshal(v.Witness)
+					fmt.Printf("note: not reproduced on re-run (inconclusive): %s case=%d mode=%q: %s\n  witness: %s\n", v.Signature, no, j.mode, core.Trunc(v.What, 500), core.Trunc(string(wj), 6000))
 					c.Inconclusive("violation not reproduced when its case was re-run alone: " + v.Signature)
 					continue
 				}
@@ -314,7 +342,7 @@ func run(c *core.Ctx) {
 	confirmed := map[string]int{}
 	runJob := func(j job) {
 		for len(j.cases) > 0 {
-			r := core.RunChild("run", childIn{Plugin: j.plugin, Cases: j.cases, Seeds: j.seeds}, core.ChildOpt{Timeout: 10 * time.Minute, Env: []string{"C19_TRACE="}})
+			r := core.RunChild("run", childIn{Plugin: j.plugin, Mode: j.mode, Cases: j.cases, Seeds: j.seeds}, core.ChildOpt{Timeout: 10 * time.Minute, Env: []string{"C19_TRACE="}})
 			if r.TimedOut {
 				c.Inconclusive("watchdog: child " + j.plugin)
 				return
@@ -347,15 +375,15 @@ func run(c *core.Ctx) {
 				c.Count("process_crashes_repeat_not_reconfirmed", 1)
 				reportCrash(j.plugin, ci, r)
 			} else {
-				r2 := core.RunChild("run", childIn{Plugin: j.plugin, Cases: j.cases[idx : idx+1], Seeds: j.seeds[idx : idx+1]},
+				r2 := core.RunChild("run", childIn{Plugin: j.plugin, Mode: j.mode, Cases: j.cases[idx : idx+1], Seeds: j.seeds[idx : idx+1]},
 					core.ChildOpt{Timeout: 5 * time.Minute, Env: []string{"C19_TRACE=1"}})
 				if r2.Crashed() {
 					ci2, _ := crashWhere(r2)
 					reportCrash(j.plugin, ci2, r2)
 				} else if r2.Completed {
-					fmt.Printf("note: child of %s died at case %d batch %d but the case alone completes; first death:\n%s\n", j.plugin, ci.Case, ci.Batch, core.Trunc(tailStr(r.Stderr, 1500), 1600))
+					fmt.Printf("note: child of %s died at case %d batch %d but the case alone completes; first death (head, tail of its stderr):\n%s\n[...]\n%s\n", j.plugin, ci.Case, ci.Batch, core.Trunc(r.Stderr, 1500), core.Trunc(tailStr(r.Stderr, 1500), 1600))
 					c.Inconclusive("crash not reproduced alone: " + j.plugin)
-					absorb(job{plugin: j.plugin}, r2)
+					absorb(job{plugin: j.plugin, mode: j.mode}, r2)
 				} else {
 					c.Inconclusive("watchdog: confirmation run " + j.plugin)
 				}
@@ -378,6 +406,20 @@ func run(c *core.Ctx) {
 	for _, p := range pluginNames {
 		need = append(need, "batches_ok."+p, "ok_multi_event_payload."+p)
 	}
+	// transport-failure classes: multi-endpoint fleets with and without gzip judged ok
+	// (elasticsearch, http), a payload accepted after the sink cut a connection (all
+	// four xhttp outputs; gzip where the output has the option), a refusing port
+	for _, p := range []string{"elasticsearch", "http"} {
+		need = append(need, "transport.fleet_batches_accepted_ok.gzip."+p, "transport.fleet_batches_accepted_ok.plain."+p)
+	}
+	for _, p := range xhttpPlugins {
+		need = append(need, "transport.accepted_ok_after_connection_cut.plain."+p)
+		if p != "loki" {
+			need = append(need, "transport.accepted_ok_after_connection_cut.gzip."+p)
+		}
+	}
+	need = append(need, "transport.fleet_with_refusing_port_accepted_ok.gzip", "transport.fleet_with_refusing_port_accepted_ok.plain",
+		"transport.requests_via.reset", "transport.requests_via.close", "transport.requests_via.hangup", "transport.requests_via.5xx", "transport.requests_via.live#2")
 	for _, k := range need {
 		if total[k] == 0 {
 			c.Fatal("expected behaviour class never observed: %s", k)
